@@ -23,6 +23,9 @@ type Getter struct {
 	Type    string `json:"type"`  // result type (expression in the declaring package)
 	PtrRecv bool   `json:"ptr_recv,omitempty"`
 	RetErr  bool   `json:"ret_err,omitempty"`
+	// RetConcreteErr (with RetErr): the second result is *tr.E, a concrete type that implements error - not the
+	// documented (T, error) shape, so the method is no getter (a nil *tr.E stored in an error is not nil)
+	RetConcreteErr bool `json:"ret_concrete_err,omitempty"`
 }
 
 // StructDecl is a generated named struct type.
@@ -176,7 +179,9 @@ func renderStruct(sb *strings.Builder, s StructDecl) {
 		if g.PtrRecv {
 			recv = "x *" + s.Name
 		}
-		if g.RetErr {
+		if g.RetErr && g.RetConcreteErr {
+			fmt.Fprintf(sb, "func (%s) %s() (%s, *tr.E) { tr.Hit(%q); return x.%s, nil }\n\n", recv, g.Name, g.Type, "m:"+site+"."+g.Name, g.Field)
+		} else if g.RetErr {
 			fmt.Fprintf(sb, "func (%s) %s() (%s, error) { err := tr.HitE(%q); return x.%s, err }\n\n", recv, g.Name, g.Type, "m:"+site+"."+g.Name, g.Field)
 		} else {
 			fmt.Fprintf(sb, "func (%s) %s() %s { tr.Hit(%q); return x.%s }\n\n", recv, g.Name, g.Type, "m:"+site+"."+g.Name, g.Field)
@@ -332,6 +337,7 @@ func (p *Prog) Files() hx.Files {
 		{Name: "lib/v2/lib.go", Data: LibV2Src},
 		{Name: "a/model/model.go", Data: ModelASrc},
 		{Name: "b/model/model.go", Data: ModelBSrc},
+		{Name: "enums/enums.go", Data: EnumsSrc},
 		{Name: "other/home/home.go", Data: OtherHomeSrc},
 		{Name: "deep/audit/audit.go", Data: AuditSrc},
 		{Name: "hooks/hooks.go", Data: HooksSrc},
